@@ -86,8 +86,10 @@ ROp(h) == /\ tx[h].st = "open" /\ ~tx[h].w
                       res |-> last'.res, out |-> last'.out])
           /\ UNCHANGED <<nops, ncommit>>
 \* Commit = Publish ; EndCommit ; UnlockWriter
-WPublish == /\ Publish(W) /\ UNCHANGED <<nops>> /\ ncommit' = ncommit + 1 /\ NoEv
-WEnd     == /\ EndCommit(W) /\ UNCHANGED <<nops, ncommit>> /\ Ev([ev |-> "End", h |-> W, how |-> "commit"])
+\* (the program's "End" step is emitted at the publication point, so that the emitted sequence is a
+\*  faithful sequential program: a reader that begins after it sees the new version)
+WPublish == /\ Publish(W) /\ UNCHANGED <<nops>> /\ ncommit' = ncommit + 1 /\ Ev([ev |-> "End", h |-> W, how |-> "commit"])
+WEnd     == /\ EndCommit(W) /\ UNCHANGED <<nops, ncommit>> /\ NoEv
 WRollback == /\ \E how \in {"rollback", "fnerr", "panic"} :
                   /\ Rollback(W) /\ Ev([ev |-> "End", h |-> W, how |-> how])
              /\ UNCHANGED <<nops, ncommit>>
@@ -134,7 +136,7 @@ SimSpec == MCInit /\ [][SimNext]_mcvars
 
 View == <<store, lastTxid, ver, tx, cur, wlock, nops, ncommit>>
 
-Emit == (EmitDepth = 0) \/ (TLCGet("level") < EmitDepth) \/ PrintT(<<"BEH", ToJson(hist)>>)
+Emit == (EmitDepth = 0) \/ (TLCGet("level") < EmitDepth) \/ PrintT(<<"BEH", TLCGet("stats").traces, ToJson(hist)>>)
 
 \* sanity lemmas on the model itself (C04): algebraic facts of the reference model
 CompactionPreserves == Compacted(store) = store
